@@ -15,6 +15,9 @@ the contract to attach and the proof hints to inject.
                                      `//# tag KNOWN <finding-id>` marks an expected-fail clause
     @before `tokens` [#n]            following lines are injected before the n-th occurrence of the token sequence
     @after `tokens` [#n]
+    @before? / @after?               the same, but the injection is skipped when the anchor does not occur (used for the
+                                     invariants and hints of a loop: without the loop they have no meaning; a loop that
+                                     is there without them is refused by Verus for lack of a decreases clause)
     @verbatim                        following lines are specification-only text placed after the item (spec fns, lemmas)
 """
 import re
@@ -56,7 +59,7 @@ class Unit:
         self.hoists = {}
 
 
-INJ = re.compile(r"@(before|after)\s+`(.*)`\s*(?:#(\d+))?\s*$")
+INJ = re.compile(r"@(before\??|after\??)\s+`(.*)`\s*(?:#(\d+))?\s*$")
 
 
 def parse_recipe(path, name):
